@@ -60,6 +60,7 @@ GENERATE_MULTIPART = Contract(
 def register(reg):
     reg.add(GENERATE_MULTIPART)
     register_handlers(reg)
+    register_asgi(reg)
 
 
 # =========================================================================== shared ghost machinery
@@ -77,8 +78,8 @@ def self_t(cls):
 
 
 TR_T = ObjT("Trace", n_start=Int, status=Str, code=Int, hl=Opaque("HeaderList"))
-OUT_T = ObjT("Out", out_len=Int, n_yield=Int, part_off=Int, cur_end=Int, n_body=Int, last_more=Bool, all_more=Bool,
-             opened=Int, phase=Int, n_parts=Int)
+OUT_T = ObjT("Out", out_len=Int, n_yield=Int, part_off=Int, cur_end=Int, n_body=Int, closed=Bool,
+             opened=Int, fd_closed=Int, phase=Int, n_parts=Int)
 
 
 def status_line(code_t):
@@ -280,7 +281,7 @@ def register_handlers(reg):
     reg.add(W_HANDLE_ALL)
     reg.add(W_HANDLE_SINGLE)
     reg.add(W_HANDLE_SEVERAL)
-    for c in (GENERATE_ETAG, JUDGE_IF_RANGE, W_CALL):
+    for c in (GENERATE_ETAG, JUDGE_IF_RANGE, W_CALL, SEND_HTTP_START, SEND_HTTP_BODY, FAKE_SENDFILE, ZC_SENDFILE):
         reg.add(c)
 
 
@@ -349,7 +350,7 @@ def several_yield(ev, v, node):
     f = out.fields
     if v.tag and v.tag[0] == "hdr":
         s, e = v.tag[1], v.tag[2]
-        ranges = ev.frame.root().lookup("ranges")
+        ranges = ev.frame.outermost().lookup("ranges")
         ro = st.obj(ranges)
         k = f["n_parts"].t
         st.oblige("%s/yield.part_header_in_phase0" % c.id, phase == 0, line=line)
@@ -535,3 +536,468 @@ W_CALL = Contract(
     assumptions=["A-status-table", "A-server", "A-re-1", "A-int-1"],
     canaries={"never_partial": "tr.status != status_line(206)"},
 )
+
+
+# =========================================================================== ASGI side
+H = "baize/asgi/helper.py"
+FD_T = ObjT("FD", pos=Int, size=Int)
+
+
+def emit_body(ev, v, more, node, zc=None):
+    """one ASGI body event (or zero-copy event): legality + provenance bookkeeping on the ghost `out`.
+    zc = (offset Opt, count Opt, fd) for a zero-copy message (A-zc: the server sends file[offset:offset+count])."""
+    from pyvc.contract import spec_value
+    st = ev.st
+    c = ev.frame.root().contract
+    out = st.obj(st.ghost["out"])
+    tr = st.obj(st.ghost["tr"])
+    f = out.fields
+    line = getattr(node, "lineno", 0)
+    st.oblige("%s/trace.body_after_start" % c.id, tr.fields["n_start"].t == 1,
+              note="http.response.body only after exactly one http.response.start", line=line)
+    st.oblige("%s/trace.no_body_after_final" % c.id, z3.Not(f["closed"].t),
+              note="nothing is sent after the body event with more_body false", line=line)
+    phase = f["phase"].t
+    if zc is not None:
+        off, ln = zc
+        st.oblige("%s/emit.data_in_phase1" % c.id, phase == 1, line=line)
+        st.oblige("%s/emit.contiguous" % c.id, off == f["part_off"].t,
+                  note="file data starts where the previous chunk ended (body == requested slice)", line=line)
+        st.oblige("%s/emit.within_part" % c.id, z3.And(ln >= 0, off + ln <= f["cur_end"].t), line=line)
+        f["part_off"] = VInt(off + ln)
+        length = ln
+    else:
+        st.oblige("%s/emit.body_is_bytes" % c.id, isinstance(v, VStr) and v.isbytes, line=line)
+        if not isinstance(v, VStr):
+            return
+        length = z3.Length(v.t)
+        if v.tag and v.tag[0] == "file":
+            off, ln = v.tag[1], v.tag[2]
+            st.oblige("%s/emit.data_in_phase1" % c.id, phase == 1, line=line)
+            st.oblige("%s/emit.contiguous" % c.id, off == f["part_off"].t,
+                      note="file chunk starts where the previous one ended (body == requested slice)", line=line)
+            st.oblige("%s/emit.within_part" % c.id, off + ln <= f["cur_end"].t, line=line)
+            f["part_off"] = VInt(off + ln)
+        elif v.tag and v.tag[0] == "hdr":
+            s, e = v.tag[1], v.tag[2]
+            ranges = ev.frame.outermost().lookup("ranges")
+            ro = st.obj(ranges)
+            k = f["n_parts"].t
+            st.oblige("%s/emit.part_header_in_phase0" % c.id, phase == 0, line=line)
+            st.oblige("%s/emit.part_is_next_range" % c.id,
+                      z3.And(k >= 0, k < ro.length, s.t == ro.cols[0][k], e.t == ro.cols[1][k]), line=line)
+            want = spec_value(ev, "part_header(boundary_of(tr.hl), self.content_type, file_size, s_, e_)", {"s_": s, "e_": e},
+                              frame=ev.frame.outermost())
+            st.oblige("%s/emit.part_header_text" % c.id, v.t == want.t, line=line)
+            f["phase"] = VInt(1)
+            f["part_off"] = s
+            f["cur_end"] = e
+        elif getattr(c, "emit_mode", "plain") == "multipart":
+            if st.decide(phase == 1):
+                st.oblige("%s/emit.part_terminator" % c.id, z3.And(v.t == z3.StringVal("\n"), f["part_off"].t == f["cur_end"].t), line=line)
+                f["phase"] = VInt(0)
+                f["n_parts"] = VInt(f["n_parts"].t + 1)
+            elif st.decide(z3.Length(v.t) == 0):
+                st.oblige("%s/emit.empty_only_for_head" % c.id, z3.And(phase == 0, f["n_body"].t == 0), line=line)
+                f["phase"] = VInt(3)
+            else:
+                want = spec_value(ev, "closing(boundary_of(tr.hl))", frame=ev.frame.outermost())
+                st.oblige("%s/emit.closing_line" % c.id, z3.And(phase == 0, v.t == want.t), line=line)
+                f["phase"] = VInt(2)
+    f["out_len"] = VInt(f["out_len"].t + length)
+    f["n_body"] = VInt(f["n_body"].t + 1)
+    f["closed"] = VBool(z3.Not(more.t))
+
+
+def send_stub(ev, args, kwargs, node):
+    """the ASGI server's send (A-server: does not raise).  Every call is checked against the response automaton
+    start -> body(more_body)* -> body(final): every prefix of the emitted sequence is legal."""
+    from pyvc.builtins import const_str, Maybe
+    st = ev.st
+    c = ev.frame.root().contract
+    msg = st.obj(args[0])
+    typ = const_str(msg.items["type"])
+    tr = st.obj(st.ghost["tr"])
+    out = st.obj(st.ghost["out"])
+    line = getattr(node, "lineno", 0)
+    if typ == "http.response.start":
+        st.oblige("%s/trace.start_once" % c.id, tr.fields["n_start"].t == 0, note="exactly one http.response.start", line=line)
+        st.oblige("%s/trace.start_first" % c.id, out.fields["n_body"].t == 0, note="start precedes every body event", line=line)
+        st.oblige("%s/trace.status_is_int" % c.id, isinstance(msg.items["status"], VInt), line=line)
+        tr.fields["n_start"] = VInt(tr.fields["n_start"].t + 1)
+        tr.fields["code"] = msg.items["status"]
+        hl = msg.items.get("headers")
+        if isinstance(hl, VOpaque) and hl.sort == "HeaderList":
+            tr.fields["hl"] = hl
+        elif hl is not None:
+            from pyvc.builtins import str_lower
+            for it in ev.iter_concrete(hl, node):
+                nm, val = it.items
+                st.oblige("%s/trace.header_is_bytes_pair" % c.id, bool(nm.isbytes and val.isbytes),
+                          note="ASGI header names and values are bytes", line=line)
+                st.oblige("%s/trace.header_name_lower" % c.id, nm.t == str_lower(ev, nm.t),
+                          note="ASGI header names are lower-case", line=line)
+            tr.fields["hl"] = headerlist_from_pairs(ev, hl, node)
+    elif typ == "http.response.body":
+        emit_body(ev, msg.items["body"], msg.items["more_body"], node)
+    elif typ == "http.response.zerocopysend":
+        fd = st.obj(msg.items["file"])
+        pos0 = msg.items["offset"].t if "offset" in msg.items else fd.fields["pos"].t
+        ln = msg.items["count"].t if "count" in msg.items else fd.fields["size"].t - pos0
+        USED.add("A-zc")
+        emit_body(ev, None, msg.items["more_body"], node, zc=(pos0, ln))
+        fd.fields["pos"] = VInt(pos0 + ln)
+    else:
+        st.oblige("%s/trace.known_event_type" % c.id, False, note="unexpected event type %r" % typ, line=line)
+    return NONE
+
+
+send_stub.mods = ("tr", "out")
+send_stub.arg_mods = ()
+
+
+def os_lseek(ev, args, kwargs, node):
+    USED.add("A-fs-2")
+    fd = ev.st.obj(args[0])
+    c = ev.frame.root().contract
+    ev.st.oblige("%s/safe.seek_offset" % c.id, args[1].t >= 0, line=getattr(node, "lineno", 0))
+    fd.fields["pos"] = args[1]
+    return args[1]
+
+
+os_lseek.mods = ()
+os_lseek.arg_mods = (1,)   # run_in_threadpool(os.lseek, fd, ...): the fd is argument 1 of run_in_threadpool
+
+
+def os_read(ev, args, kwargs, node):
+    USED.add("A-fs-2")
+    st = ev.st
+    fd = st.obj(args[0])
+    n = args[1]
+    c = ev.frame.root().contract
+    st.oblige("%s/safe.read_size" % c.id, n.t >= 0, line=getattr(node, "lineno", 0))
+    pos, size = fd.fields["pos"].t, fd.fields["size"].t
+    rem = z3.If(size - pos < 0, 0, size - pos)
+    ln = z3.If(n.t <= rem, n.t, rem)
+    data = st.fresh(Bytes, "chunk")
+    st.assume(z3.Length(data.t) == ln)
+    fd.fields["pos"] = VInt(pos + ln)
+    return VStr(data.t, True, tag=("file", pos, ln))
+
+
+os_read.mods = ()
+
+
+def os_close(ev, args, kwargs, node):
+    out = ev.st.obj(ev.st.ghost["out"])
+    out.fields["fd_closed"] = VInt(out.fields["fd_closed"].t + 1)
+    return NONE
+
+
+os_close.mods = ("out",)
+
+
+def open_for_sendfile_stub(ev, args, kwargs, node):
+    USED.update(("A-fs-1", "A-fs-2"))
+    st = ev.st
+    out = st.obj(st.ghost["out"])
+    out.fields["opened"] = VInt(out.fields["opened"].t + 1)
+    return st.alloc(Obj("FD", {"pos": VInt(0), "size": st.ghost["fsize"]}))
+
+
+open_for_sendfile_stub.mods = ("out",)
+
+from pyvc.stubs import GLOBAL_STUBS as _GS  # noqa
+
+ASGI_STUBS = {"run_in_threadpool": _GS["baize.concurrency.run_in_threadpool"], "os.lseek": os_lseek, "os.read": os_read, "os.close": os_close, "open_for_sendfile": open_for_sendfile_stub}
+
+for _n in ("send_http_start", "send_http_body"):
+    pass
+
+SEND_HTTP_START = Contract(id="send_http_start", file=H, qualname="send_http_start", inline=True, ghost_modifies=["tr"],
+                           notes="3-line helper building the start event: executed inline at every call site")
+SEND_HTTP_BODY = Contract(id="send_http_body", file=H, qualname="send_http_body", inline=True, ghost_modifies=["out"],
+                          notes="1-line helper building the body event: executed inline at every call site")
+
+SF_DEFS = dict(HDEFS)
+SF_DEFS.update({
+    "pos0()": "offset if not is_none(offset) else file_descriptor.pos",
+    "nbytes()": "count if not is_none(count) else fsize - pos0()",
+})
+SF_REQ = ["self.chunk_size >= 1", "tr.n_start == 1", "not out.closed", "out.phase == 1", "file_descriptor.size == fsize",
+          "0 <= pos0() and pos0() <= fsize", "pos0() == out.part_off", "out.cur_end <= fsize",
+          "implies(not is_none(count), count >= 0 and pos0() + count <= out.cur_end)",
+          "implies(is_none(count), out.cur_end == fsize)"]
+SF_ENS = {
+    "bytes": "out.out_len == old(out.out_len) + old(nbytes())",
+    "slice": "out.part_off == old(pos0()) + old(nbytes())",
+    "at_least_one_message": "out.n_body > old(out.n_body)",
+    "final_flag": "out.closed == (not more_body)",
+    "phase.kept": "out.phase == 1 and out.cur_end == old(out.cur_end) and out.n_parts == old(out.n_parts)",
+    "start.untouched": "tr.n_start == 1",
+    "counters.kept": "out.opened == old(out.opened) and out.fd_closed == old(out.fd_closed)",
+}
+SF_PARAMS = {"file_descriptor": FD_T, "offset": Opt(Int), "count": Opt(Int), "more_body": Bool,
+             "self": self_t(AFR), "send": TFunc(send_stub, "send")}
+SF_GHOSTS = {"tr": TR_T, "out": OUT_T, "fsize": Int}
+
+FAKE_SENDFILE = Contract(
+    id="asgi.fake_sendfile", file=A, qualname="FileResponse.create_send_or_zerocopy.<locals>.fake_sendfile",
+    props=["C02", "C05"], params=SF_PARAMS, ghosts=SF_GHOSTS, requires=SF_REQ, defs=SF_DEFS, ufuncs=HUF,
+    stubs=ASGI_STUBS, modifies=["file_descriptor.pos"], ghost_modifies=["out"], ensures=SF_ENS,
+    invariants={
+        1: ["fsize == file_descriptor.size", "file_descriptor.pos == out.part_off", "tr.n_start == 1", "out.phase == 1",
+            "out.cur_end == old(out.cur_end)", "out.n_parts == old(out.n_parts)", "here == 0", "length == self.chunk_size",
+            "out.n_body >= old(out.n_body)", "out.opened == old(out.opened) and out.fd_closed == old(out.fd_closed)",
+            "out.out_len - old(out.out_len) == out.part_off - old(pos0())", "old(pos0()) <= out.part_off and out.part_off <= fsize",
+            "implies(not should_stop, not out.closed)",
+            "implies(should_stop, out.part_off == fsize and out.closed == (not more_body) and out.n_body > old(out.n_body))"],
+        2: ["fsize == file_descriptor.size", "file_descriptor.pos == out.part_off", "tr.n_start == 1", "out.phase == 1",
+            "out.cur_end == old(out.cur_end)", "out.n_parts == old(out.n_parts)", "0 <= here and here <= count",
+            "out.n_body >= old(out.n_body)", "out.opened == old(out.opened) and out.fd_closed == old(out.fd_closed)",
+            "out.part_off == old(pos0()) + here", "out.out_len == old(out.out_len) + here",
+            "implies(not should_stop, not out.closed)",
+            "implies(should_stop, here == count and out.closed == (not more_body) and out.n_body > old(out.n_body))"],
+    },
+    locals={"data": Bytes, "length": Int},
+    canaries={"one_message_only": "out.n_body == old(out.n_body) + 1 and self.chunk_size < 3 and old(nbytes()) > 5"},
+    assumptions=["A-fs-2", "A-conc-1", "A-server"],
+)
+
+ZC_SENDFILE = Contract(
+    id="asgi.zerocopy_sendfile", file=A, qualname="FileResponse.create_send_or_zerocopy.<locals>.sendfile",
+    props=["C02", "C05"], params=SF_PARAMS, ghosts=SF_GHOSTS, requires=SF_REQ, defs=SF_DEFS, ufuncs=HUF,
+    stubs=ASGI_STUBS, modifies=["file_descriptor.pos"], ghost_modifies=["out"], ensures=SF_ENS,
+    assumptions=["A-zc", "A-server"],
+)
+
+# the abstract Sendfile contract the handlers are verified against (both implementations above satisfy it)
+SENDFILE = Contract(
+    id="asgi.Sendfile", file=A, qualname="Sendfile.__call__", props=["C02", "C05"], bodyless=True,
+    params={"file_descriptor": FD_T, "offset": Opt(Int), "count": Opt(Int), "more_body": Bool},
+    requires=[r for r in SF_REQ if "self.chunk_size" not in r], defs=SF_DEFS, ufuncs=HUF,
+    modifies=["file_descriptor.pos"], ghost_modifies=["out"], ensures=SF_ENS,
+    defaults={"offset": NONE, "count": NONE, "more_body": VBool(False)},
+    notes="Protocol class: the handlers only know this contract; fake_sendfile and the zero-copy sendfile are each "
+          "verified against the same requires/ensures",
+)
+
+
+def create_sendfile_returns(ev, env):
+    """create_send_or_zerocopy at a call site: a callable known only by the abstract Sendfile contract"""
+    return VFunc("contract", (SENDFILE, None), "sendfile")
+
+
+CREATE_SEND = Contract(
+    id="asgi.create_send_or_zerocopy", file=A, qualname="FileResponse.create_send_or_zerocopy", props=["C02"],
+    params={"self": self_t(AFR), "scope": Opaque("Scope"), "send": TFunc(send_stub, "send")},
+    returns=create_sendfile_returns, bodyless=True,
+    notes="selects one of the two verified Sendfile implementations by the presence of the zero-copy extension in "
+          "the scope; the selection itself carries no obligation of C02 (both satisfy asgi.Sendfile)",
+)
+
+A_REQ = ["self.chunk_size >= 1", "file_size >= 0", "fsize == file_size",
+         "tr.n_start == 0", "out.out_len == 0", "out.n_body == 0", "out.opened == 0", "out.fd_closed == 0", "not out.closed"]
+A_DEFS = dict(HDEFS)
+A_DEFS.update({"nothing_emitted()": "tr.n_start == 0 and out.n_body == 0 and out.opened == 0"})
+A_PARAMS = {"self": self_t(AFR), "send_header_only": Bool, "file_size": Int, "scope": Opaque("Scope"),
+            "send": TFunc(send_stub, "send")}
+A_GHOSTS = {"tr": TR_T, "out": OUT_T, "fsize": Int}
+A_COMMON = dict(defs=A_DEFS, ufuncs=HUF, stubs=ASGI_STUBS, modifies=["self.headers._dict"], ghost_modifies=["tr", "out"])
+
+A_HANDLE_ALL = Contract(
+    id="asgi.handle_all", file=A, qualname="FileResponse.handle_all", props=["C02", "C05"],
+    params=A_PARAMS, ghosts=A_GHOSTS, requires=A_REQ,
+    setup=lambda ev: ghost_init(ev, part_off=VInt(0), cur_end=ev.frame.env["file_size"], phase=VInt(1), n_parts=VInt(0)),
+    raises={"ValueError": "unclean(self.content_type)"},
+    raises_ensures={"ValueError": {"ensures": ["nothing_emitted()"]}},
+    ensures={
+        "start.once": "tr.n_start == 1",
+        "status": "tr.code == 200",
+        "content-length": "hdr_is('content-length', str(file_size))",
+        "content-type": "hdr_is('content-type', self.content_type)",
+        "headers.kept": "other_headers_kept('content-length', 'content-type', 'content-type')",
+        "final": "out.closed and out.n_body >= 1",
+        "fd.closed": "out.opened == out.fd_closed",
+        "head": "implies(send_header_only, out.out_len == 0 and out.n_body == 1 and out.opened == 0)",
+        "get": "implies(not send_header_only, out.out_len == file_size and out.part_off == file_size and out.opened == 1 and out.fd_closed == 1)",
+    },
+    canaries={"short": "implies(not send_header_only, out.out_len < file_size)"},
+    assumptions=["A-fs-1", "A-fs-2", "A-server", "A-list-headers"], **A_COMMON)
+
+A_HANDLE_SINGLE = Contract(
+    id="asgi.handle_single_range", file=A, qualname="FileResponse.handle_single_range", props=["C02", "C05"],
+    params=dict(A_PARAMS, start=Int, end=Int), ghosts=A_GHOSTS,
+    requires=A_REQ + ["0 <= start and start < end and end <= file_size"],
+    setup=lambda ev: ghost_init(ev, part_off=ev.frame.env["start"], cur_end=ev.frame.env["end"], phase=VInt(1), n_parts=VInt(0)),
+    raises={"ValueError": "unclean(self.content_type)"},
+    raises_ensures={"ValueError": {"ensures": ["nothing_emitted()"]}},
+    ensures={
+        "start.once": "tr.n_start == 1",
+        "status": "tr.code == 206",
+        "content-range": "hdr_is('content-range', 'bytes ' + str(start) + '-' + str(end - 1) + '/' + str(file_size))",
+        "content-length": "hdr_is('content-length', str(end - start))",
+        "content-type": "hdr_is('content-type', self.content_type)",
+        "headers.kept": "other_headers_kept('content-length', 'content-type', 'content-range')",
+        "final": "out.closed and out.n_body >= 1",
+        "fd.closed": "out.opened == out.fd_closed",
+        "head": "implies(send_header_only, out.out_len == 0 and out.n_body == 1 and out.opened == 0)",
+        "get": "implies(not send_header_only, out.out_len == end - start and out.part_off == end and out.opened == 1 and out.fd_closed == 1)",
+    },
+    canaries={"short": "implies(not send_header_only, out.out_len < end - start)"},
+    assumptions=["A-fs-1", "A-fs-2", "A-server", "A-list-headers"], **A_COMMON)
+
+A_HANDLE_SEVERAL = Contract(
+    id="asgi.handle_several_ranges", file=A, qualname="FileResponse.handle_several_ranges", props=["C02", "C05"],
+    params=dict(A_PARAMS, ranges=List(Tup(Int, Int))), ghosts=A_GHOSTS,
+    requires=A_REQ + ["forall(k, 0, len(ranges), 0 <= ranges[k][0] and ranges[k][0] < ranges[k][1] and ranges[k][1] <= file_size)"],
+    setup=lambda ev: ghost_init(ev, part_off=VInt(0), cur_end=VInt(0), phase=VInt(0), n_parts=VInt(0)),
+    defs=A_DEFS, ufuncs=HUF, stubs=dict(ASGI_STUBS, random_choices=random_choices_stub),
+    modifies=["self.headers._dict"], ghost_modifies=["tr", "out"],
+    raises={},
+    ensures={
+        "start.once": "tr.n_start == 1",
+        "status": "tr.code == 206",
+        "content-type": "hl_has(tr.hl, 'content-type') and hl_get(tr.hl, 'content-type').startswith('multipart/byteranges; boundary=') "
+                        "and len(boundary_of(tr.hl)) == 13",
+        "content-length": "hdr_is('content-length', str(sum((len(part_header(boundary_of(tr.hl), self.content_type, file_size, s, e))"
+                          " + (e - s) + 1) for s, e in ranges) + len(closing(boundary_of(tr.hl)))))",
+        "final": "out.closed and out.n_body >= 1",
+        "fd.closed": "out.opened == out.fd_closed",
+        "head": "implies(send_header_only, out.out_len == 0 and out.n_body == 1 and out.opened == 0 and out.phase == 3)",
+        "get": "implies(not send_header_only, str(out.out_len) == hl_get(tr.hl, 'content-length') and "
+               "out.phase == 2 and out.n_parts == len(ranges) and out.opened == 1 and out.fd_closed == 1)",
+        "headers.kept": "other_headers_kept('content-length', 'content-type', 'content-type')",
+    },
+    invariants={1: ["file_descriptor.size == fsize", "tr.n_start == 1", "out.opened == 1", "out.fd_closed == 0",
+                    "out.phase == 0", "out.n_parts == IDX", "not out.closed", "out.n_body >= 0",
+                    "out.out_len == sum_upto(IDX, ((len(part_header(boundary, self.content_type, file_size, s, e)) + (e - s) + 1) for s, e in ranges))"]},
+    assumptions=["A-fs-1", "A-fs-2", "A-server", "A-list-headers", "A-random", "A-fold-ext"],
+)
+A_HANDLE_SEVERAL.emit_mode = "multipart"
+
+SCOPE_T = Dict(method=Str, headers=List(Tup(Bytes, Bytes)))
+
+A_CALL_DEFS = dict(CALL_DEFS)
+A_CALL_DEFS.update({
+    "head()": "scope['method'] == 'HEAD'",
+    # the value the dispatch loop ends with: the LAST header of that name, '' when there is none (ghosts hr / hir)
+    "has_range()": "hr != ''",
+    "if_range_ok()": "hir == '' or hir == '\"' + etag_of(self.stat_result.st_mtime, self.stat_result.st_size) + '\"' or "
+                     "hir == httpdate(self.stat_result.st_mtime)",
+    "is_last(name, v)": "(v == '' and forall(k, 0, len(scope['headers']), scope['headers'][k][0] != name)) or "
+                        "exists(k, 0, len(scope['headers']), scope['headers'][k][0] == name and scope['headers'][k][1] == v.encode('latin-1') and "
+                        "forall(j, k + 1, len(scope['headers']), scope['headers'][j][0] != name))",
+})
+
+A_CALL = Contract(
+    id="asgi.FileResponse.__call__", file=A, qualname="FileResponse.__call__", props=["C02", "C05", "C12"],
+    params={"self": self_t(AFR), "scope": SCOPE_T, "receive": Opaque("Receive"), "send": TFunc(send_stub, "send")},
+    ghosts={"tr": TR_T, "out": OUT_T, "fsize": Int, "specs": List(Tup(Str, Str)), "x": Int, "hr": Str, "hir": Str},
+    requires=["self.chunk_size >= 1", "self.stat_result.st_size >= 0", "fsize == self.stat_result.st_size",
+              "tr.n_start == 0", "out.out_len == 0", "out.n_body == 0", "out.opened == 0", "out.fd_closed == 0", "not out.closed",
+              _c03.PARSE_RANGE.requires[1],
+              # hr / hir name the request's Range / If-Range value as the scan sees it (last header of that name, '' if none)
+              "is_last(b'range', hr)", "is_last(b'if-range', hir)"],
+    defs=A_CALL_DEFS, ufuncs=CALL_UF, consts={"range_raw_line": lambda ev: ev.st.ghost["hr"],
+                                             "max_size": lambda ev: __import__("pyvc.contract", fromlist=["spec_value"]).spec_value(ev, "self.stat_result.st_size")},
+    stubs=ASGI_STUBS,
+    modifies=["self.headers._dict"], ghost_modifies=["tr", "out"],
+    raises={"ValueError": "unclean(self.content_type)"},
+    raises_ensures={"ValueError": {"ensures": ["out.n_body == 0 and out.opened == 0 and tr.n_start == 0"]}},
+    ensures={
+        "start.once": "tr.n_start == 1",
+        "final": "out.closed and out.n_body >= 1",
+        "fd.closed": "out.opened == out.fd_closed",
+        "full.when_not_honoured": "implies(not honoured(), tr.code == 200 and "
+                                  "hdr_is('content-length', str(size())) and out.out_len == (0 if head() else size()))",
+        "partial.when_honoured": "implies(honoured() and acceptable(), tr.code == 206 and "
+                                 "(head() or str(out.out_len) == hl_get(tr.hl, 'content-length')))",
+        "reject.when_honoured": "implies(honoured() and not acceptable(), (tr.code == 400 or tr.code == 416) and "
+                                "out.opened == 0 and out.n_body == 1)",
+        "reject.416": "implies(honoured() and not acceptable() and tr.code == 416, hl_has(tr.hl, 'content-range') and "
+                      "hl_get(tr.hl, 'content-range') == '*/' + str(size()))",
+        "head.empty": "implies(head() and (not honoured() or acceptable()), out.out_len == 0 and out.opened == 0)",
+        "fd.closed": "out.opened == out.fd_closed",
+    },
+    invariants={1: [
+        "(http_range == '' and forall(k, 0, IDX, SEQ[k][0] != b'range')) or exists(k, 0, IDX, SEQ[k][0] == b'range' and "
+        "SEQ[k][1] == http_range.encode('latin-1') and forall(j, k + 1, IDX, SEQ[j][0] != b'range'))",
+        "(http_if_range == '' and forall(k, 0, IDX, SEQ[k][0] != b'if-range')) or exists(k, 0, IDX, SEQ[k][0] == b'if-range' and "
+        "SEQ[k][1] == http_if_range.encode('latin-1') and forall(j, k + 1, IDX, SEQ[j][0] != b'if-range'))",
+    ]},
+    cuts={},
+    assumptions=["A-server", "A-re-1", "A-int-1"],
+    canaries={"never_partial": "tr.code != 206"},
+)
+
+
+def register_asgi(reg):
+    for c in (CREATE_SEND, A_HANDLE_ALL, A_HANDLE_SINGLE, A_HANDLE_SEVERAL, A_CALL):
+        reg.add(c)
+
+
+# =========================================================================== replay of counter-models
+def _mk_m2i(iface, kind, zerocopy=False):
+    def m2i(m):
+        size = int(m.get("file_size", m.get("self.stat_result.st_size", m.get("fsize", 0))))
+        chunk = int(m.get("self.chunk_size", 1))
+        if not (0 <= size <= 300000) or chunk < 1:
+            raise ValueError("model outside the replayable domain (size %s, chunk %s)" % (size, chunk))
+        head = bool(m.get("send_header_only", False))
+        rng = None
+        if kind == "single":
+            rng = "bytes=%d-%d" % (int(m["start"]), int(m["end"]) - 1)
+        elif kind == "several":
+            n = min(int(m.get("ranges.len", 0)), 8)
+            rng = "bytes=" + ",".join("%d-%d" % (int(m["ranges[%d][0]" % i]), int(m["ranges[%d][1]" % i]) - 1) for i in range(n))
+        elif kind == "call":
+            if iface == "wsgi":
+                head = m.get("environ['REQUEST_METHOD']") == "HEAD"
+                present = m.get("environ.has['HTTP_RANGE']")
+            else:
+                head = m.get("scope['method']") == "HEAD"
+                present = m.get("hr", "") != ""
+            if present:
+                inp = _c03.model_to_inputs(dict(m, range_raw_line=m.get("environ['HTTP_RANGE']", m.get("hr", "")),
+                                                max_size=size))
+                rng = inp["header"]
+        return {"iface": iface, "zerocopy": zerocopy, "size": size, "chunk": chunk, "range": rng, "if_range": "absent",
+                "method": "HEAD" if head else "GET"}
+    return m2i
+
+
+def _watch_specs(ev):
+    return _c03.watch_extra(ev) if "specs" in ev.st.ghost else {}
+
+
+for _c, _args in ((W_HANDLE_ALL, ("wsgi", "all")), (W_HANDLE_SINGLE, ("wsgi", "single")), (W_HANDLE_SEVERAL, ("wsgi", "several")),
+                  (W_CALL, ("wsgi", "call")), (A_HANDLE_ALL, ("asgi", "all")), (A_HANDLE_SINGLE, ("asgi", "single")),
+                  (A_HANDLE_SEVERAL, ("asgi", "several")), (A_CALL, ("asgi", "call"))):
+    _c.model_to_inputs = _mk_m2i(*_args)
+    _c.native = ("c02", "replay")
+    if _args[1] == "call":
+        _c.watch_extra = _watch_specs
+
+
+def _sf_m2i(zc):
+    def m2i(m):
+        size = int(m.get("fsize", 0))
+        chunk = int(m.get("self.chunk_size", 1))
+        if not (0 <= size <= 300000) or chunk < 1:
+            raise ValueError("model outside the replayable domain")
+        off = m.get("offset")
+        cnt = m.get("count")
+        pos0 = int(off) if off != "<None>" else int(m.get("file_descriptor.pos", 0))
+        if cnt == "<None>":
+            rng = None if pos0 == 0 else "bytes=%d-" % pos0
+        else:
+            rng = "bytes=%d-%d" % (pos0, pos0 + int(cnt) - 1)
+        return {"iface": "asgi", "zerocopy": zc, "size": size, "chunk": chunk, "range": rng, "if_range": "absent", "method": "GET"}
+    return m2i
+
+
+FAKE_SENDFILE.model_to_inputs = _sf_m2i(False)
+FAKE_SENDFILE.native = ("c02", "replay")
+ZC_SENDFILE.model_to_inputs = _sf_m2i(True)
+ZC_SENDFILE.native = ("c02", "replay")
